@@ -65,6 +65,15 @@ def extract(repo):
     if i < 0 or j < 0 or "reshape_string(" not in body[:i] or ".shift(shift)" not in body[j:]:
         raise R.Unsupported("draw_item: `let shift = if .. ;` between reshape_string(..) and .shift(shift) not found")
     expr = body[i + len("let shift ="):j + 1]
+    nbody = re.sub(r"\s+", " ", body)
+    if "reshape_string( &item_text, container_width, match_start_char, match_end_char, self.tabstop, )" not in nbody \
+            or nbody.count("let (shift, full_width) = reshape_string(") != 1:
+        raise R.Unsupported("draw_item: reshape_string is not called as (&item_text, container_width, match_start_char, match_end_char, self.tabstop)")
+    between = body[j + 2:body.find(".shift(shift)", j)]
+    if re.search(r"\b(shift|full_width|container_width)\b\s*(?:[-+*/]?=)(?!=)", between) or re.search(r"let (?:mut )?\(?\s*(?:shift|full_width|container_width)\b", between):
+        raise R.Unsupported("draw_item: shift / full_width / container_width is rebound before it is handed to the printer")
+    if len(re.findall(r"let (?:mut )?container_width\b", body)) != 1 or not re.search(r"\.container_width\(container_width\)\s*\.shift\(shift\)\s*\.text_width\(full_width\)", body):
+        raise R.Unsupported("draw_item: the printer is not built from container_width / shift / full_width")
     call = "self.calc_skip_width(&item_text)"
     if expr.count(call) > 1:
         raise R.Unsupported("draw_item: calc_skip_width called more than once")
